@@ -1,0 +1,12 @@
+//go:build verif
+
+// Hooks for the verification harness in /verif (C15). Compiled only with `-tags verif`.
+package expandapk
+
+import (
+	"context"
+	"io"
+)
+
+// VerifCheckSums calls checkSums (the per-file checksum pass over a data section).
+func VerifCheckSums(ctx context.Context, r io.Reader) error { return checkSums(ctx, r) }
